@@ -304,7 +304,7 @@ var (
 	NumericDecimal    = regexp.MustCompile(`^(?:[0-9]+|[0-9]*\.[0-9]+)$`)
 	Opactiy           = regexp.MustCompile(`^opacity\(([0-9]{1,2}|100)%\)$`)
 	Perspective       = regexp.MustCompile(`perspective\(`)
-	Position          = regexp.MustCompile(`^[\-]*[0-9]+[cm|mm|in|px|pt|pc\%]* [[\-]*[0-9]+[cm|mm|in|px|pt|pc\%]*]*$`)
+	Position          = regexp.MustCompile(`^-?[0-9]+(?:cm|mm|in|px|pt|pc|%)?(?: -?[0-9]+(?:cm|mm|in|px|pt|pc|%)?)*$`)
 	Opacity           = regexp.MustCompile(`^((0[.]?[0-9]*)|(1\.0))$`)
 	QuotedAlpha       = regexp.MustCompile(`^["'][a-z]+["']$`)
 	Quotes            = regexp.MustCompile(`^([ ]*["'][\x{0022}\x{0027}\x{2039}\x{2039}\x{203A}\x{00AB}\x{00BB}\x{2018}\x{2019}\x{201C}-\x{201E}]["'] ["'][\x{0022}\x{0027}\x{2039}\x{2039}\x{203A}\x{00AB}\x{00BB}\x{2018}\x{2019}\x{201C}-\x{201E}]["'])+$`)
